@@ -610,11 +610,48 @@ Qed.
 
 (* ---------------------------------------------------------------- histories *)
 
+(* ---------------------------------------------------------------- the congestion response to a RACK loss *)
+
+Lemma rack_cut_frame_full s :
+  st_rwnd (rack_cut s) = st_rwnd s /\ st_nbytes (rack_cut s) = st_nbytes s /\ st_infl (rack_cut s) = st_infl s /\
+  st_buffered (rack_cut s) = st_buffered s /\ st_cum (rack_cut s) = st_cum s /\ st_front (rack_cut s) = st_front s /\
+  st_state (rack_cut s) = st_state s /\ st_mtu (rack_cut s) = st_mtu s /\ st_mincwnd (rack_cut s) = st_mincwnd s /\
+  st_pendbytes (rack_cut s) = st_pendbytes s.
+Proof. unfold rack_cut. destruct (st_infr s); cbn; repeat split; reflexivity. Qed.
+
+Lemma rack_cut_frame s : map fst (st_buffered (rack_cut s)) = map fst (st_buffered s).
+Proof. destruct (rack_cut_frame_full s) as (_ & _ & _ & E & _). rewrite E. reflexivity. Qed.
+
+Lemma rack_cut_BI s pend : BI s pend -> BI (rack_cut s) pend.
+Proof.
+  intros [Bok Bn Bnd Bbuf Bp]. destruct (rack_cut_frame_full s) as (_ & F2 & F3 & F4 & _).
+  constructor; rewrite ?F2, ?F3, ?F4; assumption.
+Qed.
+
+(* the response itself: outside fast recovery the window is cut to max(cwnd/2, 4*MTU) (never below the floors),
+   ssthresh likewise, partial_bytes_acked is cleared and fast recovery is entered; inside fast recovery (one cut
+   per window of data) nothing changes *)
+Lemma rack_cut_spec s : 0 < st_mtu s < 1073741824 ->
+  (st_infr s = true -> rack_cut s = s) /\
+  (st_infr s = false ->
+     st_infr (rack_cut s) = true /\ st_pba (rack_cut s) = 0 /\
+     st_ssthresh (rack_cut s) = Z.max (st_cwnd s / 2) (4 * st_mtu s) /\
+     st_cwnd (rack_cut s) = Z.max (Z.max (st_cwnd s / 2) (4 * st_mtu s)) (st_mincwnd s) /\
+     st_mtu s <= st_cwnd (rack_cut s) /\ st_mincwnd s <= st_cwnd (rack_cut s) /\
+     (4 * st_mtu s <= st_cwnd s -> st_mincwnd s <= st_cwnd s -> st_cwnd (rack_cut s) <= st_cwnd s)).
+Proof.
+  intros Hm. unfold rack_cut. split; intros E; rewrite E; [reflexivity|].
+  cbn [st_infr st_pba st_ssthresh st_cwnd st_mtu st_mincwnd]. unfold set_cwnd, wrap32; cbn [st_mincwnd].
+  rewrite Z.mod_small by lia.
+  destruct (Z.max (st_cwnd s / 2) (4 * st_mtu s) <? st_mincwnd s) eqn:E2; repeat split; lia.
+Qed.
+
 Inductive sev :=
 | EvSack (cum arwnd : Z) (gaps : list (Z * Z))
 | EvT3
 | EvWrite (sid : Z) (frags : list Z)
-| EvGather (chunks : list (Z * Z)) (tsn : Z).
+| EvGather (chunks : list (Z * Z)) (tsn : Z)
+| EvRackLoss.                                   (* RACK declared chunks lost (on a SACK or by its timer) *)
 
 (* ghost: pending bytes per stream, and A = the receive window most recently advertised by the peer *)
 Record sghost := mkSG { g_pend : list (Z * Z); g_A : Z }.
@@ -651,6 +688,7 @@ Definition sstep (sg : sst * sghost) (e : sev) : option (sst * sghost) :=
       | Some s' => Some (s', mkSG (pend_sub (g_pend g) chunks) (g_A g))
       | None => None              (* the implementation never moves a chunk the admission rule forbids *)
       end
+  | EvRackLoss => Some (rack_cut s, g)
   end.
 
 (* side conditions of an event (hypotheses of the history theorems) *)
@@ -663,6 +701,7 @@ Definition sev_ok (sg : sst * sghost) (e : sev) : Prop :=
   | EvGather chunks tsn =>
       pend_has (g_pend g) chunks /\
       st_nbytes s + fold_right (fun c a => snd c + a) 0 chunks < 4294967296
+  | EvRackLoss => True
   end.
 
 Fixpoint srun_ok (sg : sst * sghost) (evs : list sev) : Prop :=
@@ -742,7 +781,7 @@ Lemma sstep_SInv sg e sg' : SInv sg -> sev_ok sg e -> sstep sg e = Some sg' ->
   SInv sg' /\ map fst (st_buffered (fst sg')) = map fst (st_buffered (fst sg)).
 Proof.
   destruct sg as [s g]. unfold SInv; cbn [fst snd]. intros (HB & HW & HR & HN) Hok H.
-  destruct e as [cum arwnd gaps| |sid frags|chunks tsn]; cbn [sstep sev_ok] in *.
+  destruct e as [cum arwnd gaps| |sid frags|chunks tsn| ]; cbn [sstep sev_ok] in *.
   - destruct (sack_step s cum arwnd gaps) as [s1|] eqn:Es; inversion H; subst sg'; cbn [fst snd g_pend g_A].
     2:{ split; [split; [assumption|split; [assumption|split; assumption]]|reflexivity]. }
     destruct (sack_step_BI _ _ _ _ _ _ Es HB) as (HB1 & Hle & Hk).
@@ -766,6 +805,9 @@ Proof.
     destruct Hok as (Hp & Hsum).
     destruct (gather_new_SInv chunks s tsn false s1 (g_pend g) (g_A g) Eg HB HW HR Hp Hsum) as (A1 & A2 & A3 & A4).
     split; [split; [assumption|split; [assumption|split; assumption]]|]. apply (gather_new_frame _ _ _ _ _ Eg).
+  - inversion H; subst sg'; cbn [fst snd]. split; [|apply rack_cut_frame].
+    split; [apply rack_cut_BI; assumption|].
+    destruct (rack_cut_frame_full s) as (F1 & F2 & _). unfold WI in *. rewrite F1, F2. split; [assumption|split; assumption].
 Qed.
 
 Lemma srun_SInv : forall evs sg sg', SInv sg -> srun_ok sg evs -> srun sg evs = Some sg' ->
